@@ -39,7 +39,7 @@ ASSUMPTIONS = ["all streams carry one sample per index (missing values are C13/C
 
 def budget(tier: str) -> dict[str, Any]:
     if tier == "quick":
-        return {"shards": 8, "cases": 300}
+        return {"shards": 8, "cases": 2400}
     return {"shards": 32, "cases": 6000, "hashseeds": [0, 1, 2, 3]}
 
 
